@@ -114,6 +114,90 @@ def exhaustive_cases(max_len: int) -> List[dict]:
     return out
 
 
+# ------------------------------------------------------------------------------------------ float metrics: inf / -inf / nan
+FMETRICS = [0, 1, 1, 2.5, -1, "inf", "inf", "-inf", "nan", "nan"]
+
+
+def gen_float_case(rng: Rng) -> dict:
+    """tables whose metrics include inf / -inf / nan, heavy on equal prefixes (that is where the metric decides)"""
+    base = rng.choice(["10.1.2.0", "10.1.0.0", "192.168.1.0"])
+    routes = []
+    for _ in range(rng.range(1, 6)):
+        same = rng.chance(3, 4)
+        routes.append({"addr": base if same else rng.choice(ADDRS), "mask": rng.choice(["255.255.255.0", "255.255.0.0"]) if same else rng.choice(MASKS),
+                       "nh": rng.choice(HOPS), "metric": rng.choice(FMETRICS)})
+    ops = [{"op": "add", "route": r} for r in routes]
+    ops += [{"op": "find", "dst": q} for q in ["10.1.2.3", "10.1.77.1", "192.168.1.5", rng.choice(QUERIES)]]
+    return {"surface": "api-float", "routes": [], "default": None, "ops": ops}
+
+
+def fmetric(x) -> float:
+    return float(x)
+
+
+def float_model_lines(case: dict) -> List[str]:
+    lines = ["reset", "rtm-new"]
+    for op in case["ops"]:
+        if op["op"] == "add":
+            r = op["route"]
+            me = r["metric"] if isinstance(r["metric"], str) else str(m2(r["metric"]))
+            lines.append(f"rtm-add {r['addr']} {r['mask']} {r['nh']} {me}")
+        else:
+            lines.append(f"rtm-find {op['dst']}")
+    return lines
+
+
+def run_impl_float(case: dict) -> List[str]:
+    from primaite.simulator.network.hardware.nodes.network.router import RouteTable
+    from primaite.simulator.system.core.sys_log import SysLog
+    rt = RouteTable(sys_log=SysLog("verif"))
+    out = ["ok", "ok"]
+    for op in case["ops"]:
+        if op["op"] == "add":
+            r = op["route"]
+            rt.add_route(address=r["addr"], subnet_mask=r["mask"], next_hop_ip_address=r["nh"], metric=fmetric(r["metric"]))
+            out.append("ok")
+        else:
+            try:
+                best = rt.find_best_route(op["dst"])
+            except ValueError:
+                out.append("raised")
+                continue
+            if best is None:
+                out.append("none")
+            else:
+                idx = [i for i, x in enumerate(rt.routes) if x is best]
+                out.append(f"route {idx[0]} {best.next_hop_ip_address}")
+    return out
+
+
+def float_oracle(case: dict, answers: List[str]) -> Optional[str]:
+    """the tie-break clause on the implementation's answers, for what is comparable: the selected entry of a prefix must not be
+    more expensive than a covering FINITE / infinite entry of the same prefix (violated only through nan: F-C08-r4-1)"""
+    import ipaddress
+    import math
+    routes: List[dict] = []
+    k = 2
+    for op in case["ops"]:
+        a = answers[k]
+        k += 1
+        if op["op"] == "add":
+            routes.append(op["route"])
+            continue
+        if not a.startswith("route"):
+            continue
+        i = int(a.split()[1])
+        dst = ipaddress.IPv4Address(op["dst"])
+        nets = [ipaddress.IPv4Network(f"{r['addr']}/{r['mask']}", strict=False) for r in routes]
+        mi = fmetric(routes[i]["metric"])
+        for j, (r, n) in enumerate(zip(routes, nets)):
+            mj = fmetric(r["metric"])
+            if dst in n and n.prefixlen == nets[i].prefixlen and not math.isnan(mj) and (math.isnan(mi) or mj < mi):
+                return (f"find_best_route({op['dst']}) selected entry {i} (metric {routes[i]['metric']}) although entry {j} of the same prefix "
+                        f"has metric {r['metric']}")
+    return None
+
+
 # ------------------------------------------------------------------------------------------ model side
 def m2(x) -> int:
     """the model's integer metric: twice the float metric (all generated metrics are multiples of 0.5)"""
